@@ -222,6 +222,29 @@ def run(ctx):
                          dict(desc, output=out[:1500]), fingerprint=fp)
             else:
                 ctx.nontrivial_add((i, f))
+    # the category segmentation of the html format (model `mathmlCat`) on category texts and edge strings
+    import html as htmllib
+    import re as _re
+    from depccg.printer.html import _mathml_cat
+    import gen_cat
+    texts = [str(c) for c in gen_cat.tree_cats('en')[:400] + gen_cat.tree_cats('ja')[:300]]
+    texts += [',', '.', 'S|NP', 'S[dcl]', '[x]', 'a[b][c]', 'a[]', 'a[]]', ']a[', 'a[b', 'S[a=b,c=d,e=f]\\NP', 'x&y<z>', '', 'a[b]c[d]',
+              '[[a]]', 'a[[b]]']
+    for t in texts:
+        try:
+            out = _mathml_cat(t)
+            items = _re.findall(r"mathcolor='(Red|Purple)'>(.*?)</mi>", out, _re.S)
+            pairs = []
+            for colour, text in items:
+                if colour == 'Red':
+                    pairs.append([htmllib.unescape(text), ''])
+                else:
+                    pairs[-1][1] = htmllib.unescape(text)
+            got = 'ok ' + ' ; '.join(enc_str(a) + ' ' + enc_str(b) for a, b in pairs)
+        except Exception as e:
+            got = 'err ' + wire.err_name(e)
+        cases.append(('mathml_cat', 'mathml_cat ' + enc_str(t), got, t))
+        ctx.evaluations += 1
     ctx.sample({'formats_en': R.offered('en'), 'formats_ja': R.offered('ja')})
     ctx.extra['skipped_unsupported'] = common.compare_with_model(ctx, cases)
     common.conclude(ctx)
